@@ -34,6 +34,42 @@ class WrongMatchArguments(Unrecognised):
     pass
 
 
+def _compiled_patterns(repo):
+    """module-level  NAME = re.compile("<pattern>")  of adapters.py"""
+    m = repo.modules["adapters"]
+    out = {}
+    for n in m.tree.body:
+        if isinstance(n, ast.Assign) and isinstance(n.targets[0], ast.Name) and isinstance(n.value, ast.Call) and chain(n.value.func) == "re.compile" and n.value.args and isinstance(n.value.args[0], ast.Constant):
+            out[n.targets[0].id] = n.value.args[0].value
+    return out
+
+
+def _foreign_hook(repo):
+    """Both spellings of "the affix has a character the index cannot contain" / "the affix with such characters replaced":
+    'N' in affix  and  affix.replace('N', 'A')  on one side, PATTERN.search(affix) and PATTERN.sub('A', affix) on the other.
+    The calls are rendered alike (FOREIGN(x) / PLAIN(x)); which characters the spelling covers is decided by the
+    trigger obligation of C08.R5."""
+    pats = _compiled_patterns(repo)
+
+    def hk(ex, node, env):
+        f = node.func
+        if isinstance(f, ast.Attribute) and isinstance(f.value, ast.Name) and f.value.id in pats:
+            if f.attr == "search" and len(node.args) == 1:
+                return Obj(f"FOREIGN({vkey(ex.ev(node.args[0], env))})")
+            if f.attr == "sub" and len(node.args) == 2:
+                return Obj(f"PLAIN({vkey(ex.ev(node.args[1], env))})", nonnull=True)
+        if isinstance(f, ast.Attribute) and f.attr == "replace" and len(node.args) == 2 and all(isinstance(a, ast.Constant) for a in node.args):
+            return Obj(f"PLAIN({vkey(ex.ev(f.value, env))})", nonnull=True)
+        return None
+
+    return hk
+
+
+def _has_foreign(r, affix):
+    v = r.valuation.get(f"in:'N':{affix}")
+    return v if v is not None else r.valuation.get(f"truthy:FOREIGN({affix})")
+
+
 def _ml_rows(repo):
     """decision tree of one iteration of the loop over lengths in _match_to_multiple_lengths"""
     c, fn0 = repo.need_method("AdapterIndex", "_match_to_multiple_lengths")
@@ -65,8 +101,9 @@ def _ml_rows(repo):
         if cn == "self._lookup_with_n":
             ex.calls.append((f"lookup_with_n({vkey(ex.ev(node.args[0], env))})", node, "lookup_with_n"))
             return Obj("NRESULT")
-        return None
+        return fhk(ex, node, env)
 
+    fhk = _foreign_hook(repo)
     rows = explore(repo, lp.body, env, call_hook=hook, inline=False, loop_mode="forbid")
     return fn, lp, rows
 
@@ -148,12 +185,13 @@ def r1_coordinates(repo, report):
             return Obj("NRESULT")
         if cn == "self._make_match":
             return Obj("MATCH(" + ", ".join(vkey(ex.ev(a, env)) for a in node.args) + ")", nonnull=True)
-        return None
+        return fhk(ex, node, env)
 
+    fhk = _foreign_hook(repo)
     rows1 = explore(repo, strip_docstring(one.body), {"self": Obj("self", nonnull=True), ops[1]: Obj("SEQ", nonnull=True)}, call_hook=hook, inline=False)
     bad = []
     for r in rows1:
-        hasn = r.valuation.get("in:'N':AFFIX")
+        hasn = _has_foreign(r, "AFFIX")
         ret = vkey(r.exit[1]) if r.exit[0] == "return" else r.exit[0]
         aff = [c_[0] for c_ in r.calls if c_[2] == "make_affix"]
         if aff != ["make_affix(SEQ.upper(), self._length)"]:
@@ -379,7 +417,7 @@ def r3_bestof(repo, report):
             bad.append(("a lookup miss ends the search instead of continuing with the next length", r.describe()["valuation"]))
             continue
         # candidates
-        hasn = r.valuation.get("in:'N':AFFIX2")
+        hasn = _has_foreign(r, "AFFIX2")
         if hasn is None:
             if r.exit[0] == "continue":
                 continue
@@ -513,7 +551,7 @@ def r5_nfallback(repo, report):
     fn, lp, rows = _ml_rows(repo)
     bad = []
     for r in rows:
-        hasn = r.valuation.get("in:'N':AFFIX2")
+        hasn = _has_foreign(r, "AFFIX2")
         direct = any(k.startswith("haskey:self._index[") for k in r.valuation)
         viaN = any(c[2] == "lookup_with_n" for c in r.calls)
         if hasn is True and (direct or not viaN):
@@ -523,20 +561,21 @@ def r5_nfallback(repo, report):
     report.ob("C08.R5", "_match_to_multiple_lengths: N path", not bad, facts={"problems": [str(b)[:200] for b in bad[:2]]}, expected="'N' in affix -> _lookup_with_n(affix), never self._index[affix]", loc=repo.loc(lp), cases=len(rows))
     c, ln = repo.need_method("AdapterIndex", "_lookup_with_n")
     lps = params(ln)
+    _fallback_trigger(repo, report, ln)
 
     def hook(ex, node, env):
         f = node.func
         if isinstance(f, ast.Attribute) and f.attr == "match_to":
             ex.calls.append((f"{vkey(ex.ev(f.value, env))}.match_to({vkey(ex.ev(node.args[0], env))})", node, "match_to"))
             return Obj("REMATCH")
-        if isinstance(f, ast.Attribute) and f.attr == "replace":
-            return Obj(f"{vkey(ex.ev(f.value, env))}.replace({', '.join(vkey(ex.ev(a, env)) for a in node.args)})", nonnull=True)
-        return None
+        return fhk(ex, node, env)
+
+    fhk = _foreign_hook(repo)
 
     rows = explore(repo, strip_docstring(ln.body), {"self": Obj("self", nonnull=True), lps[1]: Obj("AFFIX", nonnull=True)}, call_hook=hook, inline=False)
     bad = []
     partial = []
-    K = "self._index[AFFIX.replace('N', 'A')]"
+    K = "self._index[PLAIN(AFFIX)]"
     for r in rows:
         hk = r.valuation.get(f"haskey:{K}")
         ret = vkey(r.exit[1]) if r.exit[0] == "return" else r.exit[0]
@@ -567,6 +606,73 @@ def r5_nfallback(repo, report):
               why="" if not partial else "the candidate adapter may align to only a part of the affix (e.g. ACGTACGTAC in ACGTACGTACN), but the caller reports the whole affix as removed with the errors of the part: -g ^ACGTACGTAC -g ^TTGGCCAATT on ACGTACGTACNGGGG removes 11 bases and reports 0 errors")
     report.ob("C08.R5", "_lookup_with_n", not bad and len(rows) >= 3, facts={"paths": len(rows), "problems": [str(b)[:240] for b in bad[:2]]},
               expected="candidate = index[affix with N -> A]; re-align candidate adapter with the real affix; (adapter, match.errors, match.score) or None", loc=repo.loc(ln), cases=len(rows), why=str(bad[0])[:200] if bad else "")
+
+
+def _index_alphabet(repo):
+    """the characters the index strings are made of: what hamming_sphere / edit_environment substitute and insert"""
+    m = repo.modules["_align"]
+    alph = set()
+    for fname in ("hamming_sphere", "edit_environment", "hamming_environment", "py_edit_environment", "slow_edit_environment"):
+        fn = next((n for n in ast.walk(m.tree) if isinstance(n, ast.FunctionDef) and n.name == fname), None)
+        if fn is None:
+            continue
+        for n in ast.walk(fn):
+            if isinstance(n, ast.For) and isinstance(n.iter, ast.Constant) and isinstance(n.iter.value, str):
+                alph.add(n.iter.value)
+    if len(alph) != 1:
+        raise Unrecognised(f"_align.pyx: the alphabet of the index strings is not a single literal ({sorted(alph)})")
+    return set(alph.pop())
+
+
+def _fallback_trigger(repo, report, ln):
+    """The dictionary holds strings over the index alphabet only (the adapters are wildcard-free, their neighbourhoods
+    are generated over ACGT). A read character outside that alphabet is a mismatch for the one-by-one comparison; for the
+    dictionary it makes the key absent. So the detour through _lookup_with_n must be taken for EVERY character outside
+    the alphabet, and must replace every such character before the lookup."""
+    import re._parser as rp  # noqa: PLC2701
+
+    alphabet = _index_alphabet(repo)
+    pats = _compiled_patterns(repo)
+
+    def covers(expr, subject_of):
+        """(covered-all?, description) for a trigger / substitution expression"""
+        if isinstance(expr, ast.Compare) and len(expr.ops) == 1 and isinstance(expr.ops[0], ast.In) and isinstance(expr.left, ast.Constant) and isinstance(expr.left.value, str):
+            return False, f"only {expr.left.value!r}"
+        if isinstance(expr, ast.Call) and isinstance(expr.func, ast.Attribute) and expr.func.attr == "replace" and expr.args and isinstance(expr.args[0], ast.Constant):
+            return False, f"only {expr.args[0].value!r}"
+        if isinstance(expr, ast.Call) and isinstance(expr.func, ast.Attribute) and isinstance(expr.func.value, ast.Name) and expr.func.value.id in pats and expr.func.attr in ("search", "sub"):
+            tree = rp.parse(pats[expr.func.value.id])
+            if len(tree) == 1 and str(tree[0][0]) == "IN" and str(tree[0][1][0][0]) == "NEGATE":
+                members = {chr(v) for k, v in tree[0][1][1:] if str(k) == "LITERAL"}
+                if len(members) == len(tree[0][1]) - 1:
+                    if expr.func.attr == "sub" and not (isinstance(expr.args[0], ast.Constant) and expr.args[0].value in alphabet):
+                        return False, f"replaced by {src(expr.args[0])}, which is not in the alphabet"
+                    return members == alphabet, f"everything but {''.join(sorted(members))}"
+            raise Unrecognised(f"pattern {pats[expr.func.value.id]!r} is not a negated character class", repo.loc(expr))
+        raise Unrecognised(f"{src(expr)[:60]}: not a known spelling of 'has a character outside the index alphabet'", repo.loc(expr))
+
+    problems = []
+    n = 0
+    for mname in ("_match_to_one_length", "_match_to_multiple_lengths"):
+        c, fn = repo.need_method("AdapterIndex", mname)
+        trig = [x for x in ast.walk(fn) if isinstance(x, ast.If) and any(isinstance(c_, ast.Call) and chain(c_.func) == "self._lookup_with_n" for st in x.body for c_ in ast.walk(st))]
+        if len(trig) != 1:
+            raise Unrecognised(f"{mname}: the test that routes to _lookup_with_n was not found", repo.loc(fn))
+        n += 1
+        okc, what = covers(trig[0].test, None)
+        if not okc:
+            problems.append(f"{mname} takes the detour for {what} ({src(trig[0].test)})")
+    subs = [x for x in ast.walk(ln) if isinstance(x, ast.Call) and isinstance(x.func, ast.Attribute) and x.func.attr in ("replace", "sub")]
+    if len(subs) != 1:
+        raise Unrecognised("_lookup_with_n: the substitution before the lookup was not found", repo.loc(ln))
+    n += 1
+    okc, what = covers(subs[0], None)
+    if not okc:
+        problems.append(f"_lookup_with_n replaces {what} ({src(subs[0])})")
+    report.ob("C08.R5", "index lookups: every read character outside the index alphabet takes the detour", not problems, facts={"index_alphabet": "".join(sorted(alphabet)), "sites": n, "problems": problems}, loc=repo.loc(ln), cases=n,
+              fact_key="foreign-characters" if problems else None,
+              expected="the detour test and the substitution cover every character that is not in the alphabet of the index strings (a negated class of exactly that alphabet)",
+              why=(f"{problems[0]}: a read with another character outside {''.join(sorted(alphabet))} (R, Y, '.', ...) at the anchored end is looked up as it is, is not in the dictionary and is reported as 'no match', while the same adapter searched one by one matches with that character as a mismatch: -g ^ACGTACGTAC -g ^TTGGCCAATT --no-indels on ARGTACGTACTTTT removes nothing with the index and 10 bases with --no-index" if problems else ""))
 
 
 def r4_regroup(repo, report):
